@@ -349,6 +349,20 @@ def cases(ctx):
             out.append({'seeds': [ss], 'kind': 'ring', 'rules': rs,
                         'entry': ('objects', 'text')[len(out) % 2],
                         'asym': True})
+    # seeds written WITH their configuration (stereo centre, E/Z): species
+    # identity is the constitution, a regenerated unmarked copy is the same
+    for ss in (['C[C@H](O)[CH2]'], ['C[C@@H](O)C=C'], [r'C/C=C/C'],
+               [r'C/C=C\C'], [r'O/C=C/C']):
+        for kind, rs in (('smarts', ['bond order increase C-C',
+                                     'bond order decrease C=C']),
+                         ('smarts', ['dehydrogenation to C=C',
+                                     'bond order decrease C=C']),
+                         ('ring', ['1,2-H shift']),
+                         ('ring', ['C=C to diradical',
+                                   '1,2-diradical to C=C'])):
+            out.append({'seeds': ss, 'kind': kind, 'rules': rs,
+                        'entry': ('objects', 'text', 'mols')[len(out) % 3],
+                        'asym': True})
     # degenerate sizes: no rule at all (the closure is the seed set), no seed
     for ss in seedsets[:12]:
         out.append({'seeds': ss, 'kind': 'smarts', 'rules': [],
